@@ -105,6 +105,8 @@ def _validate_oracle(ck):
 def run(ck: Check) -> int:
     from pytezos.context.impl import ExecutionContext
     from pytezos.operation.group import OperationGroup
+    from props import C25_P
+    C25_P.run_P(ck)        # lead's deductive part: the counter allocator (get_counter / set_counter / reset)
     for f in (ExecutionContext.get_counter, ExecutionContext.set_counter, ExecutionContext.reset,
               ExecutionContext.get_counter_offset, OperationGroup.fill, OperationGroup.autofill, OperationGroup.sign,
               OperationGroup.inject, OperationGroup.send):
